@@ -1053,6 +1053,9 @@ class ApiRun:
             if mode == "request" and o.get("arg_before") is not None and o.get("arg_before") != o.get("arg_after"):
                 ctx.violation(f"{m.name} ({variant}): the call changed the caller's request object (it must not mutate its argument)",
                               dict(case, before=o["arg_before"], after=o["arg_after"]), known)
+            if mode == "mixed" and o.get("none_kwargs") and len(o["none_kwargs"]) == len(sub_):
+                ctx.features["mixed call whose keyword values all read as None (skipped)"] += 1
+                continue
             if mode == "mixed":
                 if not (not o["ok"] and o["error"]["exception"] == "ValueError" and "individual field arguments" in o["error"]["message"] and not o["calls"]):
                     ctx.violation(f"{m.name} ({variant}): request and flattened arguments together did not raise ValueError before sending "
